@@ -836,11 +836,11 @@ ITER_SUBSET = ("filter", "filter_map")
 ITER_TRUNCATING = ("take", "take_while", "skip", "skip_while", "step_by", "map_while", "scan", "fuse", "chain", "flat_map", "flatten")
 
 
-def iter_pipeline(fn, sink_term):
+def iter_pipeline(fn, sink_term, arg_index=0):
     """Stages of `source.adaptor(..)…` feeding a consuming call (for_each, sum, …), source first:
     [(kind, closure_path_or_None, expr)], kind in source / zip-unbounded / zip / total:<name> / subset:<name> /
     truncating:<name> / unknown:<name>."""
-    e = fn.expr_of_operand(sink_term["args"][0])
+    e = fn.expr_of_operand(sink_term["args"][arg_index])
     stages = []
     while True:
         e0 = e
